@@ -11,8 +11,9 @@ macro_rules! ops_for {
 	($m:ident, $f:expr, $level:expr) => {{
 		use crate::fam::$m::AOp;
 		let mut ops: Vec<AOp> = Vec::new();
-		let mut us: Vec<Option<&str>> = vec![None, Some(""), Some("u"), Some("u:p"), Some("user:password")];
-		let mut hs: Vec<&str> = vec!["", "h", "[::1]", "example.org", "1.2.3.4"];
+		// "u"/"%75", "h"/"%68", "[::1]"/"[::01]"... : different spellings, some equal under ==
+		let mut us: Vec<Option<&str>> = vec![None, Some(""), Some("u"), Some("%75"), Some("u:p"), Some("user:password")];
+		let mut hs: Vec<&str> = vec!["", "h", "%68", "H", "[::1]", "example.org", "1.2.3.4"];
 		let mut ps: Vec<Option<&str>> = vec![None, Some(""), Some("8"), Some("8080")];
 		if $level >= 1 {
 			us.extend([Some(":"), Some("%41")]);
